@@ -64,6 +64,16 @@ CHECKS["C14"] = dict(
     note="A variant that fails to parse is a violation. Documented restrictions (reference ends its line) are never varied. Leading `this` is normalised in the AST and checked by verdict.",
     ref="DESIGN.md §6 P-C14")
 
+CHECKS["C06"] = dict(
+    technique="runtime monitoring: real-process exit-status monitor with a scenario classifier as oracle",
+    text="The shipped binary is run as real processes on scenarios built from finite classes (1..3 rules files from 7 kinds x 1..3 data "
+         "files from 5 kinds, every position, x 12 invocation modes incl. payload, stdin, directories, structured json/yaml/junit/sarif; "
+         "`test` scenarios x 4 formats x 2 layouts); the exit status must fall in the class a 30-line classifier derives from what the "
+         "generator built (per-pair verdicts confirmed by singleton library runs); in-process results must agree with process exits.",
+    note="Trusts singleton run_checks verdicts for pair classification and PyYAML for deciding that a 'malformed' sample really is malformed. "
+         "Crash exits are inconclusive here (C08 owns them).",
+    ref="DESIGN.md §6 P-C06")
+
 PENDING = {}
 
 
